@@ -266,6 +266,13 @@ func (d *Dispatcher) AddPeer(
 func (d *Dispatcher) addPeer(
 	peerID core.PeerID, isPeerOrigin bool, b *bitset.BitSet, messages Messages) (*peer, error) {
 
+	// The bitfield comes from the remote peer's handshake; its set bits index
+	// the per-piece counters.
+	if b.Len() != uint(d.torrent.NumPieces()) {
+		return nil, fmt.Errorf(
+			"invalid bitfield length %d: num pieces = %d", b.Len(), d.torrent.NumPieces())
+	}
+
 	pstats := &peerStats{}
 	if s, ok := d.peerStats.LoadOrStore(peerID, pstats); ok {
 		ps, ok := s.(*peerStats)
@@ -517,6 +524,10 @@ func (d *Dispatcher) dispatch(p *peer, msg *conn.Message) error {
 }
 
 func (d *Dispatcher) handleError(p *peer, msg *p2p.ErrorMessage) {
+	if msg == nil {
+		d.log("peer", p).Error("Rejecting error message: missing body")
+		return
+	}
 	switch msg.Code {
 	case p2p.ErrorMessage_PIECE_REQUEST_FAILED:
 		d.log().Errorf("Piece request failed: %s", msg.Error)
@@ -525,8 +536,12 @@ func (d *Dispatcher) handleError(p *peer, msg *p2p.ErrorMessage) {
 }
 
 func (d *Dispatcher) handleAnnouncePiece(p *peer, msg *p2p.AnnouncePieceMessage) {
-	if int(msg.Index) >= d.torrent.NumPieces() {
-		d.log().Errorf("Announce piece out of bounds: %d >= %d", msg.Index, d.torrent.NumPieces())
+	if msg == nil {
+		d.log("peer", p).Error("Rejecting announce piece message: missing body")
+		return
+	}
+	if msg.Index < 0 || int(msg.Index) >= d.torrent.NumPieces() {
+		d.log().Errorf("Announce piece out of bounds: %d not in [0, %d)", msg.Index, d.torrent.NumPieces())
 		return
 	}
 	i := int(msg.Index)
@@ -543,6 +558,10 @@ func (d *Dispatcher) isFullPiece(i, offset, length int) bool {
 }
 
 func (d *Dispatcher) handlePieceRequest(p *peer, msg *p2p.PieceRequestMessage) {
+	if msg == nil {
+		d.log("peer", p).Error("Rejecting piece request: missing body")
+		return
+	}
 	p.pstats.incrementPieceRequestsReceived()
 
 	i := int(msg.Index)
@@ -579,6 +598,10 @@ func (d *Dispatcher) handlePiecePayload(
 
 	defer closers.Close(payload)
 
+	if msg == nil {
+		d.log("peer", p).Error("Rejecting piece payload: missing body")
+		return
+	}
 	i := int(msg.Index)
 	if !d.isFullPiece(i, int(msg.Offset), int(msg.Length)) {
 		d.log("peer", p, "piece", i).Error("Rejecting piece payload: chunk not supported")
